@@ -55,6 +55,17 @@ CHECKS = {
    text="TLC checks TripleOK/AndOK for every assignment of shares, Deltas and OT outputs (2-3 parties exhaustively, 4 in simulation) and, for the pool, every interleaving of the leader's producer, the followers and the consumers (words consumed are the same at every party, every Get is served); real runs on circuits compiled for GMW (many AND levels, batch sizes 64k and not, > 4096 gates per level) with random start delays must return Compute's outputs at every party; for every AND batch the recorded shares of all parties must recombine (valid triple, correct opening, z = x AND y) - all words in the harness, sampled bits incl. word boundaries in TLC.",
    note="Trusts TLC, loopback TCP, the verif hook in andBatchFlush (1 add-only call); privacy of the dealing (v = b is sent in clear) is outside C10.",
    ref="5 C10"),
+ "C06": dict(
+   technique="TLA+ spec OTExt.tla (IKNP extension at bit level with scaled constants: chunking, byte/word packing, PRG stream cursors of both sides, label and packed-bit forms) model-checked by TLC over all batch sizes, choice vectors and Delta; TLC-generated batch sequences with predicted chunk message sizes run on real IKNP pairs with every index checked; RSA/CO/COT/ROT through the ot.OT interface",
+   text="TLC checks Correlation (received = sent xor choice*Delta per index, both forms) and Lockstep of the PRG streams for every n up to 10-12, every choice vector, every Delta and sequences of two batches, and rejects three deviations (tail word ignored - the repaired defect -, SendBits advancing one column only, stale choice bytes); the generator enumerates batch sequences over sizes around the 8/64/128/512/1024 boundaries with the chunk message sizes of the real constants; each sequence runs on one initialised real IKNP pair (Delta bit 0 forced both ways, six choice patterns, malicious-checked batches included) and every index is compared; COT/ROT in both adversary modes, CO and its pure helpers and RSA are exercised on the same sizes.",
+   note="Trusts TLC, the arbitrary-but-fixed PRG pattern of the model, honest base OT.",
+   ref="5 C06"),
+ "C15": dict(
+   technique="TLA+ spec Kos.tla (consistency check over unreduced GF(2) polynomial products, fault = one flipped matrix bit) model-checked by TLC (HonestAccepts, Sound, Exact: rejected iff Delta selects the column, the row is used and chi_row # 0); flips of every (column,row) of payload and check matrices and of the challenge response on real IKNP pairs behind a tampering ot.IO, outcomes validated by TLC against KosTrace.tla",
+   level="fault_enumeration",
+   text="TLC proves on the scaled model (3-bit labels, all Delta, choices, challenge coefficients, flips incl. padding rows) the exact acceptance condition of a single flip; on the real code each coordinate of the extension matrix of the payload batch (n = 1, 8, 9, 129) and of the 256-row check batch - all 152k of them in the thorough tier, a seeded 2% in quick - is flipped in transit, the sender's accept/abort and the correlation of its outputs for the original choices are recorded with Delta known to the harness, and TLC validates every outcome; honest runs up to n = 2049 must be accepted; altered response labels must be rejected.",
+   note="Trusts TLC; chi_row = 0 (probability 2^-128) is excluded; mul128 is exercised only through the check's observable outcome.",
+   ref="5 C15"),
 }
 
 NOT_APPLICABLE = {}
